@@ -13,11 +13,17 @@ _TIE = ("tied to /repo on every run by evaluating the Gallina model inside Coq (
 _TB = "Trusted: Coq 8.16.1 kernel + vm_compute; harness generators/comparators and the Python->Coq literal printer; "
 
 CLAIMED = {
-    "C01": _c("Differential execution of generated programs over the public API against NumPy (values, shape, dtype) with "
-              "shrinking; theorems of the expression calculus are added as the modelled fragment grows (proof-partial: the "
-              "property quantifies over all API programs, which no finite model covers).",
+    "C01": _c("Reference semantics of the program language in Gallina (coq/theories/ProgSem*.v: eval : prog -> option ndarr for the "
+              "integer subset of the public API — indexing, transpose, elementwise with broadcasting, concat/stack, broadcast_to, flip, "
+              "roll, take, repeat, diff, reshape, 9 reductions, scans; None exactly where NumPy raises) with theorems for ALL programs "
+              "(coq/Properties/C01.v: well-formedness, advertised-shape rule = computed shape, every operation reads in bounds, rechunk is "
+              "the identity, the pushdown laws slice/slice, slice/elemwise (with broadcasting), slice/transpose, slice/concat, slice/reduce, "
+              "transpose/transpose, flip = negative-step slice); tied on every run: Coq checks by vm_compute that eval p = NumPy's result "
+              "and pshape p = the shape dask_array advertises, for generated programs (and eval p = None for malformed ones); the whole "
+              "API surface (core generator + 60 further API calls, harness/apicalls.py) is compared with NumPy by execution with shrinking "
+              "(proof-partial: dtype, floats and the ops outside the subset are decided by execution only).",
               "5/C01", _TB + "NumPy is the oracle; programs outside the modelled fragment are checked by execution only.",
-              "Coq model of the core + differential execution vs NumPy over generated programs"),
+              "Coq reference semantics + laws, tied by vm_compute against NumPy and dask_array; differential execution over generated programs"),
     "C13": _c("Unbounded Coq theorems about Gallina models of normalize_slice, fuse_slice (scalar and tuple), _compose_slices, "
               "_slice_1d, new_blockdim (coq/Properties/C13.v: selection preserved; plan partitions the selected positions in "
               "order, pieces inside blocks, chunk sizes = piece lengths; for all axis lengths, chunkings incl. zero-length "
@@ -43,14 +49,17 @@ CLAIMED = {
               "previous_chunks branch of auto_chunks is not modelled (property-level checks only, with the configured "
               "tolerance).",
               "Coq proof over Gallina model + differential correspondence; previous_chunks branch by property oracle only"),
-    "C17": _c("Coq theorems about Gallina models of common_blockdim, coarse_blockdim and moved_fraction "
-              "(coq/Properties/C17.v): the refine layout is the finest common refinement, only splits and never grows a "
-              "block; the coarse layout is an operand layout all others refine or the common refinement (for every "
-              "tie-break oracle); refinements never grow blocks; " + _TIE + "; unify_chunks_expr itself is checked on real "
-              "operands x 3 policies x limits against the property (alignment, refine-only-splits, growth bound, values).",
-              "5/C17", _TB + "the cost-aware merge/realign decision logic of unify_chunks_expr is not modelled in Coq: its "
-              "outputs are checked against the property per instance; set-iteration tie-break is an oracle.",
-              "Coq proof over Gallina models of the per-axis helpers + property check of unify_chunks_expr outputs"),
+    "C17": _c("Coq theorems about Gallina models of common_blockdim, coarse_blockdim, moved_fraction AND the per-index decision "
+              "procedure of unify_chunks_expr (coq/theories/UnifyDecide.v: policy selection, cost-aware refusal of merges, realignment "
+              "of interleaved layouts, size guard; float cost comparisons and set order are oracle arguments) (coq/Properties/C17.v): the "
+              "refine layout is the finest common refinement, only splits and never grows a block; every decided layout is an operand's "
+              "layout or the common refinement (never invented) and has the axis length; under ANY policy with a non-zero limit no "
+              "operand's largest block grows beyond max(limit, its own largest block) (limit 0 refuted: finding C17-L0); the realignment "
+              "choice is not stable under reversal (refuted: root cause of finding F33); " + _TIE + "; the real unify_chunks_expr is "
+              "compared exactly with the model on exhaustive small + generated operand sets x 3 policies x limits.",
+              "5/C17", _TB + "float costs are modelled as exact rationals (cases within 1e-9 of a tie are skipped: 0 so far); nan chunk "
+              "sizes are modelled in UnknownChunks.v (C28), not here.",
+              "Coq proof over Gallina models of the helpers and of the decision layer + exact differential correspondence"),
 }
 
 
